@@ -15,6 +15,8 @@
 (*   wires    <<[seen, last, fail]>> one entry per wire request issued on   *)
 (*            its behalf (inside the block, in any task):                   *)
 (*            seen   the server had received the complete request            *)
+(*            hdr    the server had written the response headers (Never:     *)
+(*                   it never answered)                                      *)
 (*            last   the server had written the last byte of the response    *)
 (*                   body (Never: no complete response)                      *)
 (*            fail   the failure of the request became observable for the    *)
@@ -34,6 +36,7 @@ Max(S) == CHOOSE x \in S : \A y \in S : x >= y
 Min(S) == CHOOSE x \in S : \A y \in S : x <= y
 
 Seen(it)   == {it.wires[i].seen : i \in {j \in 1..Len(it.wires) : it.wires[j].seen # Never}}
+Hdrs(it)   == {it.wires[i].hdr : i \in {j \in 1..Len(it.wires) : it.wires[j].hdr # Never}}
 Ends(it)   == {it.wires[i].last : i \in {j \in 1..Len(it.wires) : it.wires[j].last # Never}}
 Fails(it)  == {it.wires[i].fail : i \in {j \in 1..Len(it.wires) : it.wires[j].fail # Never}}
 
@@ -49,6 +52,10 @@ EndNotBeforeResponseWritten(it) == (it.re # NoneT /\ Ends(it) # {}) => it.re >= 
 (* a request that failed has been issued, too: the end is not before its failure was observable *)
 EndNotBeforeFailure(it) == (it.re # NoneT /\ Fails(it) # {}) => it.re >= Max(Fails(it)) - it.tol
 
+(* a request that was answered at all has an end, whatever happened to the rest of the response (body never sent, client    *)
+(* timeout while the body is read): the end is not before the response headers of the latest answer were written           *)
+EndNotBeforeHeadersWritten(it) == Hdrs(it) # {} => (it.re # NoneT /\ it.re >= Max(Hdrs(it)) - it.tol)
+
 (* service time spans what the server observed *)
 ServiceTimeSpans(it) ==
     (it.rs # NoneT /\ it.re # NoneT /\ Seen(it) # {} /\ Ends(it) \cup Fails(it) # {})
@@ -59,11 +66,12 @@ WithinContext(it) == /\ it.rs # NoneT => it.rs >= it.enter - it.tol
                      /\ it.re # NoneT => it.re <= it.exit + it.tol
                      /\ (it.rs # NoneT /\ it.re # NoneT) => it.re >= it.rs
 
-Clauses == {"Recorded", "StartNotAfterRequestSeen", "EndNotBeforeResponseWritten", "EndNotBeforeFailure", "ServiceTimeSpans", "WithinContext"}
+Clauses == {"Recorded", "StartNotAfterRequestSeen", "EndNotBeforeHeadersWritten", "EndNotBeforeResponseWritten", "EndNotBeforeFailure", "ServiceTimeSpans", "WithinContext"}
 
 Holds(c, it) ==
     CASE c = "Recorded" -> Recorded(it)
       [] c = "StartNotAfterRequestSeen" -> StartNotAfterRequestSeen(it)
+      [] c = "EndNotBeforeHeadersWritten" -> EndNotBeforeHeadersWritten(it)
       [] c = "EndNotBeforeResponseWritten" -> EndNotBeforeResponseWritten(it)
       [] c = "EndNotBeforeFailure" -> EndNotBeforeFailure(it)
       [] c = "ServiceTimeSpans" -> ServiceTimeSpans(it)
